@@ -232,24 +232,21 @@ def gen_cases(ctx):
     rng = ctx.rng
     cases = []
     sizes = [0, 1, 1, 2, 3, 5, 8, 20]
+    # (0) cross-instance state, cheaply and first: the same class several times in one list (twice the same payload),
+    #     as a list, and as EVLRs of a file; every case is also read twice (second generation)
+    for cls in ["lookup", "extra", "wave", "geokeys", "doubles", "ascii", "wkt", "wktmath", "laszip"]:
+        a, b = known_record(rng, cls, "wf"), known_record(rng, cls, "wf")
+        while b[3] == a[3] or not a[3] or not b[3]:
+            a, b = known_record(rng, cls, "wf"), known_record(rng, cls, "wf")
+        cases.append({"mode": "list", "ext": False, "recs": [a, b, a]})
+        cases.append({"mode": "file", "version": "1.4", "fmt": 6, "points": 1, "via": "write", "recs": [unknown_record(rng, 3)], "erecs": [b, a, b]})
+    # every id / description length, full-width punctuation
+    for ln in range(0, 17):
+        cases.append({"mode": "list", "ext": ln % 2 == 0, "recs": [(rtext(rng, ln, PRINTABLE), rng.randrange(65536), rtext(rng, 2 * ln, PUNCT), rbytes(rng, ln), "unknown")]})
     # (a) lists through VLRList directly
     for i in range(ctx.n(400, 3000)):
         ext = rng.random() < 0.5
         cases.append({"mode": "list", "ext": ext, "recs": gen_list(rng, rng.choice(sizes))})
-    # every id / description length, full-width punctuation
-    for ln in range(0, 17):
-        cases.append({"mode": "list", "ext": ln % 2 == 0, "recs": [(rtext(rng, ln, PRINTABLE), rng.randrange(65536), rtext(rng, 2 * ln, PUNCT), rbytes(rng, ln), "unknown")]})
-    # payload size boundaries
-    for ext in (False, True):
-        for size in (65535, 65536):
-            cases.append({"mode": "list", "ext": ext, "recs": [unknown_record(rng, 3), unknown_record(rng, size), unknown_record(rng, 0)]})
-    big_wkt = rtext(rng, 65535, b"abcdefgh ,[]\"")
-    cases.append({"mode": "list", "ext": False, "recs": [(U_PROJ, 2112, b"wkt at the limit", big_wkt, "wkt/norm")]})
-    cases.append({"mode": "list", "ext": False, "recs": [(U_PROJ, 2112, b"wkt at the limit", big_wkt[:-1] + b"\0", "wkt/wf")]})
-    cases.append({"mode": "list", "ext": True, "recs": [(U_PROJ, 2112, b"", big_wkt + b"zz", "wkt/norm")]})
-    cases.append({"mode": "list", "ext": False, "recs": [(U_SPEC, 0, b"4095 entries", b"".join(bytes([i % 256]) + b"n%04d" % i + b"\0" * 10 for i in range(4095)), "lookup/norm")]})
-    cases.append({"mode": "list", "ext": False, "recs": [(U_PROJ, 34735, b"", rbytes(rng, 6) + (8190).to_bytes(2, "little") + rbytes(rng, 8 * 8190), "geokeys/wf")]})
-    cases.append({"mode": "list", "ext": False, "recs": [(U_PROJ, 34736, b"", rbytes(rng, 65528), "doubles/wf"), (U_SPEC, 4, b"", rbytes(rng, 192 * 341), "extra/wf")]})
     # (b) real files
     for i in range(ctx.n(200, 1500)):
         ver, fmt = rng.choice([("1.2", 0), ("1.2", 3), ("1.3", 1), ("1.4", 3), ("1.4", 6), ("1.4", 6), ("1.4", 7), ("1.4", 6)])
@@ -261,6 +258,17 @@ def gen_cases(ctx):
             evl.insert(rng.randrange(len(evl) + 1), unknown_record(rng, rng.choice([65535, 65536, 70000])))
         cases.append({"mode": "file", "version": ver, "fmt": fmt, "points": rng.choice([0, 1, 7]),
                       "via": rng.choice(["write", "write", "writer", "disk"]), "recs": vl, "erecs": evl})
+    # (c) payload size boundaries (last: they are the expensive ones)
+    for ext in (False, True):
+        for size in (65535, 65536):
+            cases.append({"mode": "list", "ext": ext, "recs": [unknown_record(rng, 3), unknown_record(rng, size), unknown_record(rng, 0)]})
+    big_wkt = rtext(rng, 65535, b"abcdefgh ,[]\"")
+    cases.append({"mode": "list", "ext": False, "recs": [(U_PROJ, 2112, b"wkt at the limit", big_wkt, "wkt/norm")]})
+    cases.append({"mode": "list", "ext": False, "recs": [(U_PROJ, 2112, b"wkt at the limit", big_wkt[:-1] + b"\0", "wkt/wf")]})
+    cases.append({"mode": "list", "ext": True, "recs": [(U_PROJ, 2112, b"", big_wkt + b"zz", "wkt/norm")]})
+    cases.append({"mode": "list", "ext": False, "recs": [(U_SPEC, 0, b"4095 entries", b"".join(bytes([i % 256]) + b"n%04d" % i + b"\0" * 10 for i in range(4095)), "lookup/norm")]})
+    cases.append({"mode": "list", "ext": False, "recs": [(U_PROJ, 34735, b"", rbytes(rng, 6) + (8190).to_bytes(2, "little") + rbytes(rng, 8 * 8190), "geokeys/wf")]})
+    cases.append({"mode": "list", "ext": False, "recs": [(U_PROJ, 34736, b"", rbytes(rng, 65528), "doubles/wf"), (U_SPEC, 4, b"", rbytes(rng, 192 * 341), "extra/wf")]})
     return cases
 
 
@@ -311,6 +319,8 @@ def snap(v):
     s["content"] = content_tok(v)
     try:
         s["ser"] = bytes(v.record_data_bytes())
+        if len(s["ser"]) > MAX_SER:
+            s["ser"], s["ser_err"] = None, f"EOther:serialisation of {len(s['ser'])} bytes"
     except Exception as ex:  # noqa
         s["ser"] = None
         s["ser_err"] = common.exc_kind(ex) + ":" + type(ex).__name__
@@ -322,6 +332,13 @@ def snap_tok(s):
         return ":".join(["raw", hx(s["uid"]), str(s["rid"]), hx(s["desc"]), hx(s["data"])])
     ser = hx(s["ser"]) if s["ser"] is not None else "!" + s["ser_err"].split(":")[0]
     return ":".join([s["cls"], hx(s["uid"]), str(s["rid"]), hx(s["desc"]), s["content"], ser])
+
+
+def outgrew(recs, gen):
+    """a parsed list whose serialisations are far larger than the payloads they came from is not written again
+    (a parser that accumulates state would otherwise double the data on every generation)"""
+    total = sum(len(x["ser"]) for x in gen if x.get("ser") is not None) + sum(1 for x in gen if x.get("ser_err", "").startswith("EOther:serialisation"))* MAX_SER
+    return total > 2 * sum(len(r[3]) for r in recs) + 65536
 
 
 def mk_vlrs(recs):
@@ -346,6 +363,9 @@ def run_list(case):
     res["bytes"] = buf.getvalue()
     rl = VLRList.read_from(io.BytesIO(res["bytes"]), len(vl), extended=ext)
     res["gen1"] = [snap(v) for v in rl]
+    if outgrew(case["recs"], res["gen1"]):
+        res["w2err"] = "skipped: serialisations outgrew the payloads"
+        return res
     buf2 = io.BytesIO()
     try:
         rl.write_to(buf2, as_extended=ext)
@@ -420,6 +440,9 @@ def run_file(case):
     res["gen1"] = [snap(v) for v in r.vlrs]
     res["egen1"] = None if r.evlrs is None else [snap(v) for v in r.evlrs]
     res["hdr"] = (int(r.header.version.minor), int(r.header.offset_to_point_data), int(r.header.number_of_evlrs), int(r.header.start_of_first_evlr))
+    if outgrew(list(case["recs"]) + list(case["erecs"] or []), res["gen1"] + (res["egen1"] or [])):
+        res["w2err"] = "skipped: serialisations outgrew the payloads"
+        return res
     try:
         case2 = dict(case)
         data2 = write_file(case2, r, None if case["via"] != "writer" else r.evlrs)
@@ -434,13 +457,17 @@ def run_file(case):
 
 
 _RUNS = None
+MAX_FAILING_CASES = 10      # a misbehaving parser is reported from the first cases that show it; nothing is accumulated
+MAX_SER = 1 << 22           # a serialisation larger than any payload generated here is not kept
 
 
 def runs(ctx):
-    """generate the cases and run the implementation once (shared by correspond and search)"""
+    """generate the cases and run the implementation once (shared by correspond and search); cheap cases first, and the
+    run stops once MAX_FAILING_CASES cases violated the property oracle"""
     global _RUNS
     if _RUNS is None:
         _RUNS = []
+        bad = 0
         for case in gen_cases(ctx):
             try:
                 res = run_list(case) if case["mode"] == "list" else run_file(case)
@@ -448,6 +475,15 @@ def runs(ctx):
                 import traceback
                 res = {"crash": f"{type(ex).__name__}: {ex}", "tb": traceback.format_exc()[-600:]}
             _RUNS.append((case, res))
+            try:
+                failed = bool(oracle(case, res))
+            except Exception:  # noqa
+                failed = True
+            if failed:
+                bad += 1
+                if bad >= MAX_FAILING_CASES:
+                    ctx.notes.append(f"implementation runs stopped after {len(_RUNS)} cases: {bad} of them violated the property oracle")
+                    break
         import shutil
         shutil.rmtree(_TMP, ignore_errors=True)
     return _RUNS
@@ -710,7 +746,9 @@ def check_list(where, recs, limit, werr, gen1, w2err, gen2, partial=None):
         return out
     grew = [s for s in gen1 if s["cls"] != "VLR" and limit is not None and s["ser"] is not None and len(s["ser"]) > limit]
     if w2err is not None:
-        if not (grew and w2err == "EValue"):
+        if w2err.startswith("skipped"):
+            out.append((f"{where}: parsed records serialise to far more bytes than were read", w2err))
+        elif not (grew and w2err == "EValue"):
             out.append((f"{where}: what was read cannot be written again", f"second write raised {w2err}"))
         return out
     if grew:
@@ -807,8 +845,18 @@ def run_case(case):
 
 
 def minimise(case, kind):
-    """shrink the record lists while the same kind of failure is observed"""
+    """shrink the record lists while the same kind of failure is observed (at most 25 re-runs)"""
     cur = case
+    budget = [25]
+
+    def still(cand):
+        if budget[0] <= 0:
+            return False
+        budget[0] -= 1
+        try:
+            return kind in [k for k, _ in oracle(cand, run_case(cand))]
+        except Exception:  # noqa
+            return False
     for key in ("recs", "erecs"):
         if cur.get(key) is None:
             continue
@@ -816,22 +864,15 @@ def minimise(case, kind):
         while i < len(cur[key]) and len(cur[key]) > 1:
             cand = dict(cur)
             cand[key] = cur[key][:i] + cur[key][i + 1:]
-            try:
-                kinds = [k for k, _ in oracle(cand, run_case(cand))]
-            except Exception:  # noqa
-                kinds = []
-            if kind in kinds:
+            if still(cand):
                 cur = cand
             else:
                 i += 1
     if cur.get("erecs") and kind.startswith(("file vlrs", "vlr list")):
         cand = dict(cur)
         cand["erecs"] = []
-        try:
-            if kind in [k for k, _ in oracle(cand, run_case(cand))]:
-                cur = cand
-        except Exception:  # noqa
-            pass
+        if still(cand):
+            cur = cand
     return cur
 
 
